@@ -2,10 +2,14 @@
 (* Definitional small-step semantics of the calc language over syntax trees.       *)
 (* Sessions (sequences of top-level statements) are read from SessionsFile; each   *)
 (* session's behaviour is a deterministic line.  Values and operators come from    *)
-(* CalcValues.  Scratch prototype, round 0.                                        *)
+(* CalcValues.  Two modes: generate (prints OBS lines with the specified            *)
+(* observations) and trace (a session carries the observations recorded from the   *)
+(* real interpreter in field rec; it is ACCEPTed iff the specification can follow  *)
+(* them, else one DIVERGE line names the item, the aspect and both sides).         *)
 EXTENDS CalcValues, TLC, Json
 
-CONSTANT SessionsFile
+CONSTANTS SessionsFile,   \* ndjson, one session per line
+          MaxSteps        \* step budget per item; beyond it the item is Unspecified ("budget")
 Sessions == ndJsonDeserialize(SessionsFile)
 
 VARIABLES pi,       \* session index
@@ -17,9 +21,10 @@ VARIABLES pi,       \* session index
           out,      \* characters written by the current statement
           stdin,    \* unread input lines (each a char seq including its newline)
           obs,      \* observations of finished statements
-          status,   \* "run" | "stmtend" | "done"
-          stepno
-vars == <<pi, si, cors, cur, heap, globals, out, stdin, obs, status, stepno>>
+          status,   \* "run" | "stmtend" | "done" | "diverged"
+          stepno,   \* steps of this session so far
+          itemstart \* stepno when the current item began
+vars == <<pi, si, cors, cur, heap, globals, out, stdin, obs, status, stepno, itemstart>>
 View == <<pi, stepno>>
 
 Last(s) == s[Len(s)]
@@ -122,6 +127,7 @@ Init ==
   /\ obs = <<>>
   /\ status = "stmtend"      \* first action: BeginItem
   /\ stepno = 0
+  /\ itemstart = 0
 
 M == [cors |-> cors, cur |-> cur, heap |-> heap, globals |-> globals, out |-> out, stdin |-> stdin]
 
@@ -248,7 +254,8 @@ StepRet(m) ==
     [] f.t = "bina" -> LET r == BinApply(f.op, f.lv, v) IN
                        IF IsErr(r) THEN FromErr(r, f.op, <<f.lv, v>>) ELSE Go(SetC(m, RetC(c1, r.val)))
     [] f.t = "una" -> LET r == UnApply(f.op, v) IN
-                      IF IsErr(r) THEN FromErr(r, f.op, <<v>>) ELSE Go(SetC(m, RetC(c1, r.val)))
+                      IF IsErr(r) THEN (IF f.op = "-" THEN FromErr(r, "*", <<IntV(-1), v>>) ELSE FromErr(r, f.op, <<v>>))
+                      ELSE Go(SetC(m, RetC(c1, r.val)))
     [] f.t = "ixk" ->
          LET acc == Append(f.acc, v) IN
          IF Len(f.rest) > 0 THEN Go(SetC(m, EvalC(PushK(c1, [f EXCEPT !.rest = Tail(@), !.acc = acc]), f.rest[1])))
@@ -351,25 +358,77 @@ RECURSIVE Plain(_)
 Plain(v) == IF v.k = "fn" THEN [k |-> "fn"]
             ELSE IF v.k = "arr" THEN [k |-> "arr", v |-> [i \in 1..Len(v.v) |-> Plain(v.v[i])]] ELSE v
 \* ---- trace mode: a session may carry the observations recorded from the real interpreter
-HasRec == "rec" \in DOMAIN Sessions[pi]
+Sess == Sessions[pi]
+HasRec == "rec" \in DOMAIN Sess
+CmpHas(x) == IF "cmp" \in DOMAIN Sess THEN \E i \in 1..Len(Sess.cmp) : Sess.cmp[i] = x ELSE x = "value"
 RECURSIVE SameVal(_, _)
 SameVal(a, b) ==      \* a: spec value, b: recorded value
-  /\ a.k = b.k
-  /\ CASE a.k \in {"nil", "fn"} -> TRUE
-       [] a.k \in {"int", "bool", "str"} -> a.v = b.v
-       [] a.k = "float" -> a.c = b.c /\ (a.c = "nan" \/ (a.neg = b.neg /\ (a.c = "inf" \/ (a.n = b.n /\ a.e = b.e))))
-       [] a.k = "arr" -> Len(a.v) = Len(b.v) /\ \A i \in 1..Len(a.v) : SameVal(a.v[i], b.v[i])
-Matches(o, r) ==
-  IF "perr" \in DOMAIN o THEN r.kind = "perr"
-  ELSE IF "err" \in DOMAIN o THEN r.kind = "err" /\ r.err \in {o.err, o.alt} /\ r.out = o.out
-  ELSE r.kind = "val" /\ SameVal(o.val, r.val) /\ r.out = o.out
+  \/ b.k = "none"     \* file mode: the value is discarded by the implementation
+  \/ /\ a.k = b.k
+     /\ CASE a.k \in {"nil", "fn"} -> TRUE
+          [] a.k \in {"int", "bool", "str"} -> a.v = b.v
+          [] a.k = "float" -> a.c = b.c /\ (a.c = "nan" \/ (a.neg = b.neg /\ (a.c = "inf" \/ (a.n = b.n /\ a.e = b.e))))
+          [] a.k = "arr" -> Len(a.v) = Len(b.v) /\ \A i \in 1..Len(a.v) : SameVal(a.v[i], b.v[i])
+Clean(res) == res.sp = 0 /\ res.frames = 0 /\ res.closures = 0 /\ res.live = 0 /\ res.ipgap = 0
+
+\* error report (property C19): recorded = parsed text of the implementation's report
+RECURSIVE JoinArgs(_)
+JoinArgs(as) == IF Len(as) = 0 THEN <<>> ELSE IF Len(as) = 1 THEN as[1] ELSE as[1] \o <<",", " ">> \o JoinArgs(Tail(as))
+OpFamily(op) ==
+  CASE op = "+" -> {"ADD", "ADDTMP", "INC"} [] op = "-" -> {"SUB", "SUBTMP"} [] op = "*" -> {"MUL", "MULTMP"}
+    [] op = "/" -> {"DIV", "DIVTMP"} [] op = "%" -> {"MOD", "MODTMP"}
+    [] op \in {"&", "&&"} -> {"AND", "ANDTMP"} [] op \in {"|", "||"} -> {"OR", "ORTMP"}
+    [] op = "<<" -> {"LSH", "LSHTMP"} [] op = ">>" -> {"RSH", "RSHTMP"}
+    [] op = "<" -> {"LT", "LTTMP"} [] op = ">" -> {"GT", "GTTMP"} [] op = "<=" -> {"LE", "LETMP"} [] op = ">=" -> {"GE", "GETMP"}
+    [] op = "==" -> {"EQ", "EQTMP"} [] op = "!=" -> {"NE", "NETMP"}
+    [] op = "#" -> {"LEN", "LENTMP"} [] op = "!" -> {"NOT", "NOTTMP", "JMPF", "JMPT"} [] op = "~" -> {"FLIP", "FLIPTMP"}
+    [] op = "IX" -> {"IX1", "IX2"} [] op = "JMPF" -> {"JMPF", "JMPT"}
+    [] OTHER -> {op}
+IsTmpOp(name) == Len(name) > 3 /\ SubSeq(name, Len(name) - 2, Len(name)) = "TMP"
+ArgsOK(sargs, rop, rtext) ==       \* printed operand values: all of them, in order; TMP forms print a suffix, INC its variable
+  \/ JoinArgs(sargs) = rtext
+  \/ rop \in {"ADDTMP", "SUBTMP", "MULTMP", "DIVTMP", "MODTMP", "ANDTMP", "ORTMP", "LSHTMP", "RSHTMP", "LTTMP", "GTTMP", "LETMP", "GETMP", "EQTMP", "NETMP",
+               "NOTTMP", "FLIPTMP", "LENTMP"}
+     /\ \E k \in 2..(Len(sargs) + 1) : JoinArgs(SubSeq(sargs, k, Len(sargs))) = rtext
+  \/ rop = "INC" /\ \E k \in 1..Len(sargs) : sargs[k] = rtext
+RECURSIVE JoinFrameArgsFrom(_, _)
+JoinFrameArgsFrom(as, i) ==
+  IF i > Len(as) THEN <<>>
+  ELSE (IF i > 1 THEN <<" ">> ELSE <<>>) \o <<"a", "r", "g", "[">> \o NatStr(i - 1) \o <<"]", ":", " ">> \o as[i] \o JoinFrameArgsFrom(as, i + 1)
+JoinFrameArgs(as) == JoinFrameArgsFrom(as, 1)
+FramesOK(sf, rf) == Len(sf) = Len(rf) /\ \A i \in 1..Len(sf) : sf[i].name = rf[i].name /\ JoinFrameArgs(sf[i].args) = rf[i].args
+ReportOK(s, r) ==
+  /\ r.parsed
+  /\ r.op \in OpFamily(s.op)
+  /\ ArgsOK(s.args, r.op, r.args)
+  /\ Len(s.ctxs) = Len(r.ctxs)
+  /\ \A i \in 1..Len(s.ctxs) : FramesOK(s.ctxs[i], r.ctxs[i])
+
+Aspect(o, r) ==     \* "" when the recorded observation r is the specified one, else the first differing aspect
+  IF "perr" \in DOMAIN o THEN (IF r.kind = "perr" THEN "" ELSE "kind")
+  ELSE IF CmpHas("nocrash") THEN (IF r.kind \in {"val", "err"} THEN "" ELSE "kind")
+  ELSE IF "err" \in DOMAIN o THEN
+       IF r.kind # "err" THEN "kind"
+       ELSE IF r.err \notin {o.err, o.alt} THEN "class"
+       ELSE IF CmpHas("value") /\ r.out # o.out THEN "output"
+       ELSE IF CmpHas("report") /\ ~ReportOK(o.report, r.report) THEN "report"
+       ELSE IF CmpHas("residue") /\ ~Clean(r.residue) THEN "residue"
+       ELSE ""
+  ELSE IF r.kind # "val" THEN "kind"
+       ELSE IF CmpHas("value") /\ ~SameVal(o.val, r.val) THEN "value"
+       ELSE IF CmpHas("value") /\ r.out # o.out THEN "output"
+       ELSE IF CmpHas("residue") /\ ~Clean(r.residue) THEN "residue"
+       ELSE ""
 \* append observation o; in trace mode it must match the record, else the session diverges
 Observe(o, okStatus, okSi) ==
-  IF HasRec /\ (Len(obs) + 1 > Len(Sessions[pi].rec) \/ ~Matches(o, Sessions[pi].rec[Len(obs) + 1]))
-  THEN /\ obs' = Append(obs, o) /\ status' = "diverged" /\ si' = si
-       /\ PrintT("DIVERGE " \o ToJson([id |-> Sessions[pi].id, item |-> Len(obs) + 1, expected |-> o,
-                                        recorded |-> IF Len(obs) + 1 > Len(Sessions[pi].rec) THEN [kind |-> "missing"] ELSE Sessions[pi].rec[Len(obs) + 1]]))
-  ELSE /\ obs' = Append(obs, o) /\ status' = okStatus /\ si' = okSi
+  LET n == Len(obs) + 1
+      missing == HasRec /\ n > Len(Sess.rec)
+      asp == IF ~HasRec THEN "" ELSE IF missing THEN "missing" ELSE Aspect(o, Sess.rec[n])
+  IN IF asp # ""
+     THEN /\ obs' = Append(obs, o) /\ status' = "diverged" /\ si' = si
+          /\ PrintT("DIVERGE " \o ToJson([id |-> Sess.id, item |-> n, aspect |-> asp, expected |-> o,
+                                           recorded |-> IF missing THEN [kind |-> "missing"] ELSE Sess.rec[n]]))
+     ELSE /\ obs' = Append(obs, o) /\ status' = okStatus /\ si' = okSi
 
 Assign(m) ==
   /\ cors' = m.cors /\ cur' = m.cur /\ heap' = m.heap /\ globals' = m.globals /\ out' = m.out /\ stdin' = m.stdin
@@ -377,6 +436,7 @@ Assign(m) ==
 BeginItem ==
   /\ status = "stmtend" /\ si <= Len(Items)
   /\ stepno' = stepno + 1
+  /\ itemstart' = stepno
   /\ IF "perr" \in DOMAIN Items[si]
      THEN /\ Observe([perr |-> TRUE], "stmtend", si + 1)
           /\ UNCHANGED <<pi, cors, cur, heap, globals, out, stdin>>
@@ -388,18 +448,18 @@ Step ==
   /\ status = "run"
   /\ ~(cors[cur].mode = "ret" /\ Len(cors[cur].k) = 0)
   /\ stepno' = stepno + 1
-  /\ LET r == StepFn(M) IN
-     IF "m" \in DOMAIN r THEN Assign(r.m) /\ UNCHANGED <<pi, si, obs, status>>
+  /\ LET r == IF stepno - itemstart > MaxSteps THEN UnspecR ELSE StepFn(M) IN
+     IF "m" \in DOMAIN r THEN Assign(r.m) /\ UNCHANGED <<pi, si, obs, status, itemstart>>
      ELSE IF "unspec" \in DOMAIN r THEN
-          /\ obs' = Append(obs, [unspec |-> TRUE]) /\ status' = "stmtend" /\ si' = Len(Items) + 1
-          /\ UNCHANGED <<pi, cors, cur, heap, globals, out, stdin>>
+          /\ obs' = Append(obs, [unspec |-> TRUE, budget |-> stepno - itemstart > MaxSteps]) /\ status' = "stmtend" /\ si' = Len(Items) + 1
+          /\ UNCHANGED <<pi, cors, cur, heap, globals, out, stdin, itemstart>>
      ELSE /\ Observe([err |-> r.raise, alt |-> r.alt, out |-> out,
                        report |-> [op |-> r.op, args |-> [i \in 1..Len(r.args) |-> Rendered(r.args[i])],
                                    ctxs |-> LET ch == Chain(M, cur) IN
                                             IF "frame" \in DOMAIN r
                                             THEN << << [name |-> r.frame.name, args |-> [i \in 1..Len(r.frame.args) |-> Rendered(r.frame.args[i])]] >> \o ch[1] >> \o Tail(ch)
                                             ELSE ch]], "stmtend", si + 1)
-          /\ UNCHANGED <<pi, cors, cur, heap, globals, out, stdin>>
+          /\ UNCHANGED <<pi, cors, cur, heap, globals, out, stdin, itemstart>>
 
 StmtDone ==
   /\ status = "run"
@@ -407,7 +467,7 @@ StmtDone ==
   /\ stepno' = stepno + 1
   /\ Assert(cors[cur].parent = 0, "statement finished inside a generator")
   /\ Observe([val |-> Plain(cors[cur].ctl), out |-> out, live |-> Cardinality(Live(M) \ {cur})], "stmtend", si + 1)
-  /\ UNCHANGED <<pi, cors, cur, heap, globals, out, stdin>>
+  /\ UNCHANGED <<pi, cors, cur, heap, globals, out, stdin, itemstart>>
 
 PlainObs(o) == IF "val" \in DOMAIN o THEN [o EXCEPT !.val = Plain(@)] ELSE o
 
@@ -415,15 +475,18 @@ Finish ==
   /\ status = "stmtend" /\ si > Len(Items)
   /\ stepno' = stepno + 1
   /\ status' = "done"
-  /\ IF HasRec THEN PrintT("ACCEPT " \o ToString(Sessions[pi].id))
+  /\ IF HasRec THEN PrintT("ACCEPT " \o ToJson([id |-> Sess.id, n |-> Len(obs), steps |-> stepno,
+                                                 unspec |-> (Len(obs) > 0 /\ "unspec" \in DOMAIN obs[Len(obs)])]))
      ELSE PrintT("OBS " \o ToJson([id |-> Sessions[pi].id, obs |-> [i \in 1..Len(obs) |-> PlainObs(obs[i])]]))
-  /\ UNCHANGED <<pi, si, cors, cur, heap, globals, out, stdin, obs>>
+  /\ UNCHANGED <<pi, si, cors, cur, heap, globals, out, stdin, obs, itemstart>>
 
 Next == BeginItem \/ Step \/ StmtDone \/ Finish
 Spec == Init /\ [][Next]_vars
 
 \* the semantics is total: a running statement always has a successor
 NotStuck == status = "run" => ENABLED (Step \/ StmtDone)
+SpecSane == /\ status \in {"run", "stmtend", "done", "diverged"}
+            /\ si >= 1 /\ Len(obs) <= Len(Items) + 1 /\ stepno >= itemstart
 \* no residue: when a statement completes normally no generator is left alive
 NoResidue == \A i \in 1..Len(obs) : ("live" \in DOMAIN obs[i]) => obs[i].live = 0
 =============================================================================
